@@ -142,7 +142,7 @@ func c14FailoverFamily(t *testing.T, rep *mc.Reporter, tier string, shard, nshar
 		crashes int
 		idle    int
 		soft    bool
-		stops   bool // also the variants with the first run stopped in front of each later symbol
+		stops   bool // id change at start 1: also the variants with the first run stopped in front of each later symbol (traffic after the change)
 	}
 	plans := []plan{
 		// crash points of the whole history (incl. updateCheckpoint, recovery, the re-key), up to three idle restarts
@@ -184,7 +184,8 @@ func c14FailoverFamily(t *testing.T, rep *mc.Reporter, tier string, shard, nshar
 			for _, cfg := range allCfg {
 				for _, rk := range pl.rekeys {
 					stopAts := []int{0}
-					if pl.stops {
+					if pl.stops && rk == 1 {
+						// (with a later change the start after the stop replays the rest under the old id)
 						for k := 2; k <= len(seq); k++ {
 							stopAts = append(stopAts, k)
 						}
